@@ -5,6 +5,7 @@ import (
 	"flag"
 	"math/rand"
 	"path/filepath"
+	"strings"
 
 	"github.com/go-openapi/spec"
 	"github.com/go-openapi/strfmt"
@@ -223,7 +224,10 @@ func drivePost(args []string) error {
 					_ = validate.AgainstSchema(&sch0, data0, reg)
 				}
 				var res *validate.Result
-				if (i+j)%5 == 3 {
+				if (i+j)%5 == 4 && !strings.Contains(string(st), `"items"`) {
+					// the Swagger-flavoured schema validation is a public option too (it only adds checks on members named like keywords)
+					res = validate.NewSchemaValidator(&sch, nil, "", reg, validate.SwaggerSchema(true)).Validate(data)
+				} else if (i+j)%5 == 3 {
 					// a validator built from the options of another one (public round trip through SchemaValidatorOptions.Options())
 					first := validate.NewSchemaValidator(&sch, nil, "", reg, validate.WithRecycleValidators(true))
 					res = validate.NewSchemaValidator(&sch, nil, "", reg, first.Options.Options()...).Validate(data)
